@@ -477,6 +477,43 @@ class _FArr:
         return _np.array(self.data, dtype=dtype if dtype is not None else object)
 
 
+class _FScalar:
+    """a single element read from a dataset (h5py returns a NumPy scalar: it has
+    .dtype / .shape and converts to the plain value)"""
+
+    def __init__(self, value, dtype):
+        self.value = value
+        self.dtype = _DT(dtype)
+        self.shape = ()
+
+    def __array__(self, dtype=None, copy=None):
+        a = _np.empty((), dtype=object)
+        a[()] = self.value
+        return a
+
+    def __float__(self):
+        return float(self.value)
+
+    def __int__(self):
+        return int(self.value)
+
+    def __index__(self):
+        return int(self.value)
+
+    def __eq__(self, other):
+        o = other.value if isinstance(other, _FScalar) else other
+        return self.value == o
+
+    def __hash__(self):
+        return hash(self.value)
+
+    def __repr__(self):
+        return "fakeh5.scalar(%r)" % (self.value,)
+
+    def ravel(self):
+        return [self.value]
+
+
 class _DT:
     """dtype wrapper: compares equal to the dtype it wraps, has .fields"""
 
@@ -594,7 +631,7 @@ class Dataset(_Handle):
             if isinstance(k, slice):
                 out_shape.append(len(range(*k.indices(shape[d]))))
         if not out_shape:
-            return res
+            return _FScalar(res, self.node.dtype)
         return _FArr(res, out_shape, self.node.dtype)
 
     def __setitem__(self, key, data):
